@@ -543,7 +543,7 @@ fn forged_check() -> CheckDef {
         "forged-pay",
         "generated attempts = (pay-token source: Ready state reached by an honest history of 0-2 payments on boundary / ordinary balances, in-range amount of either sign or 0 from the boundary-seeking selector, lie in {none, wrong nonce (double spend), amount on one balance only, amount off by delta, sign flipped, new customer / merchant balance -1 with the range constraint built for an in-range value, foreign channel id in state and/or close state, close tag replaced by a fresh nonce / 0 / random, old lock mismatch, new lock mismatch, token of another key, tampered token, valid token shown for a richer old state}, strategy in {plain, revealed scalars chosen after the challenge (both / one), scalar commitment or commitment of any sub-proof (token, lock, state, close, a digit proof) chosen after the challenge with the linear checks repaired, mutated atoms}); challenge read through the recorder hook on a draft; oracle: accepted => known openings satisfy the payment statement (token valid on an old message containing exactly the public nonce, balances moved by exactly the amount and in [0,2^63), cid carried over, one new lock, close tag, revocation commitment on the old lock); control: closing signature valid exactly on old -/+ amount, complete_payment accepts the old pair with the prover's factor, new token valid on the new state; distinct by (lie, strategy, amount sign, source)",
         &["strategy/revealed-scalars-chosen-after-challenge", "strategy/plain"],
-        (352, 5000),
+        (352, 16_000),
         strategy,
         oracle,
     )
